@@ -94,6 +94,7 @@ def main():
     from checks import pycommon
     pycommon.indent_skeleton(chk, o, 4 if chk.quick else 6, pycommon.CORE_OPTS, wall=120 if chk.quick else 1500, tokens_only=True)
     pycommon.indent_skeleton(chk, o, 2 if chk.quick else 3, pycommon.RICH_OPTS, wall=120 if chk.quick else 1500, tokens_only=True, label="rich")
+    pycommon.indent_skeleton(chk, o, 3, pycommon.WS_OPTS, wall=120 if chk.quick else 600, tokens_only=True, label="whitespace")
     # concrete layouts: every Python seed and every implicit string concatenation as written, with CRLF line ends, and without the final newline
     from symx import errseeds
     base = list(dict.fromkeys(PY_LAYOUT + py + seeds.concat_product(True, 100 if chk.quick else 1000, chk.rng)))
